@@ -28,6 +28,14 @@ CHECKS.update({
          'Every stop position k of each file is observed (both offsets read after every Scan and compared with the block layout), a second scanner is started at every distinct reported offset and at the previous offset and must deliver exactly the model suffix with a nil header; real Scan x k, Close, resume histories for sampled k; skip masks create fully empty blocks; decoders {1,2,4,16}.',
          'trusted: block layout from the harness writer. After the terminal Scan only the resume consequence is asserted.'),
 })
+CHECKS.update({
+ 'C13': ('exploration', 'reference-model monitor over generated (change, histories, option) triples with a recording/fault-injecting datasource wrapper',
+         'annotate.Change is executed on fresh deep copies of generated triples (unsorted, gapped, duplicated, missing histories; every mix of the nine action/kind cells; with and without the ignore option; injected non-not-found errors) and the diff is compared with an independent reference of the documented pairing rule, ordering, visibility and typed errors; every history over versions 1..6 is enumerated; a second run checks determinism.',
+         'trusted: the reference max-below search (12 lines). Not asserted: order inside one (action, kind) cell, which of several failing elements is reported, versions <= 0.'),
+ 'C18': ('exploration', 'exhaustive enumeration against an own hash-map copy of the polygon-features rules',
+         'Way.Polygon/Relation.Polygon are evaluated on every listed key x every listed value of any key (plus near-misses, unlisted, empty, no) x area classes, all ordered pairs of rule keys, tag permutations, unrelated tags and the closed/length preconditions, and compared with a reference evaluator over hash maps (no sort, no binary search). Exhaustive over the rule table, so every per-value lookup result is decided.',
+         'trusted: the content of the rule table (pinned by key/value counts and a checksum from a second transcription). A rule key with an empty value is run but not asserted (statement and library differ from osmtogeojson there).'),
+})
 PENDING = 'check not built yet in this revision of /verif (planned in DESIGN.md section 4); no verdict is claimed'
 
 checks, na = [], []
